@@ -114,6 +114,7 @@ cwd = os.getcwd()
 try:
     os.chdir(root)
     for loc in cands:
+        os.chdir(tempfile.mkdtemp(dir=root))             # a fresh working directory per spelling ('data' and './data' alias otherwise)
         if loc.startswith("/"):
             loc_fs = os.path.join(root, "abs") + loc     # keep absolute spellings inside the scratch dir ...
             norm_T = loc                                 # ... but test the normaliser with the literal string too
